@@ -36,7 +36,9 @@ RULE = ("histories [call-before-fit]; fit; keys; (call | state_dict round trip)*
 TRUSTED = [
     "Coq 8.16.1 kernel + vm_compute (no native_compute)",
     "hand-written model coq/Model/CatToNum.v of cat_to_num_transform.py / fittable_base_transform.py / "
-    "base_transform.py, tied to /repo by this run's observational correspondence over whole histories",
+    "base_transform.py, tied to /repo by this run's observational correspondence over whole histories, all transform "
+    "instances interleaved on the object-store model (run_store: state_dict = the live attribute dict, "
+    "load_state_dict = dict update, slots rebound by round trips into fresh instances)",
     "modelled primitives: torch index_select / tensor[index], broadcasting of [N,K-1] + [K-1], torch.cat(dim=1), "
     "F.one_hot, dict insertion order, TensorFrame.validate; rationals stand for float32 "
     "(generated cells compared with tolerance 1e-6 * (max count + max|y| + 1) / (n_train + 1))",
@@ -1046,10 +1048,29 @@ def coq_step(st):
     return "SKeys"
 
 
+def coq_mstep(st):
+    i = C.cnat(st.get("inst", 0))
+    if st["op"] == "fit":
+        return f"MFit {i} {coq_frame(st['frame'])} {coq_stats(st['stats'])}"
+    if st["op"] == "call":
+        return f"MCall {i} {coq_frame(st['frame'])}"
+    if st["op"] == "keys":
+        return f"MKeys {i}"
+    if st["op"] == "roundtrip":
+        kind = {"direct": "(RtFresh false)", "deepcopy": "(RtFresh true)", "torch": "(RtFresh true)",
+                "self": "RtSelf", "self2": "RtSelf2"}[st["how"]]
+        return f"MRound {i} {kind}"
+    if st["op"] == "save":
+        return f"MSave {i} {C.cbool(st['how'] != 'direct')}"
+    if st["op"] == "load":
+        return f"MLoad {i} {C.cbool(st.get('into') == 'self')}"
+    raise AssertionError(st["op"])
+
+
 def coq_obs(st, o):
     if not o["ok"]:
         return "OErr"
-    if st["op"] in ("fit", "roundtrip", "load"):
+    if st["op"] in ("fit", "roundtrip", "load", "save"):
         return "ODone"
     if st["op"] == "keys":
         return f"OKeys {C.clist(o['keys'], C.cstr)}"
@@ -1084,13 +1105,12 @@ def coq_term(case, obs):
                 return None
             except RefErr:
                 return None
-    terms = []
-    for inst in sorted({st.get("inst", 0) for st, _ in pairs}):
-        mine = [(st, o) for st, o in pairs if st.get("inst", 0) == inst and st["op"] != "save"]
-        steps = C.clist([st for st, _ in mine], coq_step)
-        os_ = C.clist(mine, lambda p_: coq_obs(*p_))
-        terms.append(f"history_agrees {cq(inst_tol(case, inst))} {steps} {os_}")
-    return "(" + " && ".join(terms) + ")"
+    # the whole history, all instances interleaved, on the object-store model (state_dict = the LIVE dict of the object,
+    # load_state_dict = update): run_store of coq/Model/CatToNum.v
+    tol = max(inst_tol(case, inst) for inst in {st.get("inst", 0) for st, _ in pairs})
+    steps = C.clist([st for st, _ in pairs], coq_mstep)
+    os_ = C.clist(pairs, lambda p_: coq_obs(*p_))
+    return f"store_history_agrees {cq(tol)} {steps} {os_}"
 
 
 def sanity(cases, obss):
